@@ -74,6 +74,11 @@ func curatedLexSpecs() []*LSpec {
 		&LMode{Rules: []*LRule{fragRule(seq(lit("\"", "")), LAct{Kind: "push", Mode: 1}), tokRule(seq(lit("}", "")), LAct{Kind: "pop"}), tokRule(seq(cls(false, "+", az))), ws}},
 		&LMode{Name: "Str", Rules: []*LRule{tokRule(seq(lit("${", "")), LAct{Kind: "push", Mode: 0}), tokRule(seq(lit("\"", "")), LAct{Kind: "pop"}),
 			tokRule(seq(cls(true, "", RRange{'"', '"'}, RRange{'$', '$'})))}}))
+	// mode names whose byte order and case-folded order differ (Tag < attr bytewise, attr < tag ignoring case), both pushed
+	out = append(out, finishSpec(
+		&LMode{Rules: []*LRule{tokRule(seq(lit("<", "")), LAct{Kind: "push", Mode: 1}), tokRule(seq(cls(false, "+", az))), ws}},
+		&LMode{Name: "Tag", Rules: []*LRule{tokRule(seq(lit("=", "")), LAct{Kind: "push", Mode: 2}), tokRule(seq(lit(">", "")), LAct{Kind: "pop"}), tokRule(seq(cls(false, "+", az))), ws}},
+		&LMode{Name: "attr", Rules: []*LRule{tokRule(seq(cls(false, "+", RRange{'0', '9'})), LAct{Kind: "pop"}), tokRule(seq(lit("'", ""), cls(true, "*", RRange{'\'', '\''}), lit("'", "")), LAct{Kind: "pop"})}}))
 	// priority: keyword vs identifier sharing states; a later rule whose every first character also starts an earlier rule
 	out = append(out, finishSpec(&LMode{Rules: []*LRule{
 		tokRule(seq(lit("0x", ""), cls(false, "+", RRange{'0', '9'}, RRange{'a', 'f'}))), tokRule(seq(lit("1", ""))),
